@@ -9,6 +9,11 @@ from gen import *
 from framework import Harness, Program
 
 GEN = "<T: Default + Clone + PartialEq + core::fmt::Debug>"
+ODD = """#[derive(Debug, Clone, Copy, PartialEq)]
+pub struct Odd(pub u32);
+impl Default for Odd { fn default() -> Self { Odd(0) } }
+impl Odd { pub const fn default() -> Odd { Odd(100) } }      // inherent preset, NOT the Default impl
+"""
 
 
 def U(ident, **kw):
@@ -25,6 +30,8 @@ def pivot():
     S.append(EnumSpec("DisLast", [U("A"), U("B"), U("H", disabled=True)], note="disabled last"))
     S.append(EnumSpec("DisAdj", [U("A"), U("H1", disabled=True), U("H2", disabled=True), U("B", fields=[Field("u32", name="k")], named=True), U("C")],
                       note="two adjacent disabled"))
+    S.append(EnumSpec("OddPayload", [U("A", fields=[Field("Odd")]), U("B", fields=[Field("Odd", name="g"), Field("u8", name="x")], named=True), U("C")],
+                      note="payload type that has BOTH a Default impl and an inherent `fn default()` returning another value"))
     S.append(EnumSpec("DisAll", [U("H1", disabled=True), U("H2", disabled=True)], note="all disabled"))
     S.append(EnumSpec("Zero", [], note="no variants"))
     S.append(EnumSpec("Gen", [U("One", fields=[Field("T")]), U("H", disabled=True), U("Two", fields=[Field("T", name="t"), Field("u8", name="u")], named=True), U("Three")],
@@ -73,7 +80,7 @@ def program(spec: EnumSpec, pname, tier):
     E = spec.ty()
     en = [i for i, v in enumerate(spec.variants) if not v.disabled]
     C = len(en)
-    src = render_enum(spec) + "\n"
+    src = (ODD if spec.name == "OddPayload" else "") + render_enum(spec) + "\n"
     helper = variant_index_fn(spec) + "\n" + payload_ok_fn(spec) + "\n"
     helper += "pub const C: usize = %d;\n" % C
     helper += "pub fn decl_of_enabled(j: usize) -> usize { match j { %s _ => usize::MAX } }\n" % " ".join("%d => %d," % (j, i) for j, i in enumerate(en))
